@@ -182,8 +182,28 @@ pub fn mamba_to_python(
 
     #[cfg(feature = "verif")]
     verif_hooks::set_stage(2);
-    let ctx = Context::try_from(asts.as_ref())
-        .map_err(|errs| errs.iter().map(|e| format!("{e}")).collect::<Vec<String>>())?;
+    let ctx = Context::try_from(asts.as_ref()).map_err(|errs| {
+        // An error which a file also gives on its own belongs to that file
+        let per_file: Vec<String> = asts
+            .iter()
+            .zip(&source)
+            .flat_map(|(ast, (src, path))| {
+                Context::try_from(std::slice::from_ref(ast))
+                    .err()
+                    .unwrap_or_default()
+                    .into_iter()
+                    .map(|err| err.with_source(&Some(src.clone()), &path.clone()))
+                    .map(|err| format!("{err}"))
+                    .collect::<Vec<String>>()
+            })
+            .collect();
+
+        if per_file.is_empty() {
+            errs.iter().map(|e| format!("{e}")).collect::<Vec<String>>()
+        } else {
+            per_file
+        }
+    })?;
     #[cfg(feature = "verif")]
     verif_hooks::set_stage(3);
     let (typed_ast, type_errs): (Vec<_>, Vec<_>) = asts
